@@ -184,6 +184,15 @@ def run(ctx):
                               {"result": str(r), "source": it["prog"].vy()[:3000]})
                 return
     cfgs = c08_configs(ctx.tier)
+    if ctx.tier == "quick":
+        # time budget: every bundle under the base configurations plus 3 of the single-flag ones (rotating with bundle and seed)
+        n_base = len(configs(ctx.tier))
+        n_extra = len(cfgs) - n_base
+        for bi, it in enumerate(items):
+            keep = {cfgs[n_base + (bi * 3 + ctx.seed + k) % n_extra].name for k in range(3)} if n_extra else set()
+            base_names = {c.name for c in cfgs[:n_base]}
+            prev = it["applicable"]
+            it["applicable"] = (lambda c, prev=prev, keep=keep, base_names=base_names: prev(c) and (c.name in base_names or c.name in keep))
     obs = D.observe_all(items, cfgs, procs=4)
     n_cmp = 0
     rejected = {}
